@@ -109,16 +109,6 @@ Proof.
       * intros H [H1|H1]; [congruence|tauto].
       * tauto.
 Qed.
-Lemma fkeys_skel_incl : forall (f : forest) k, In k (fkeys A (skel A f)) -> In k (fkeys A f).
-Proof.
-  induction f as [|k' t r IH]; intros k H; cbn [skel fkeys] in *.
-  - exact H.
-  - destruct t; cbn [fkeys In] in *.
-    + right. now apply IH.
-    + destruct H as [H|H]; [now left|right; now apply IH].
-    + destruct H as [H|H]; [now left|right; now apply IH].
-Qed.
-
 Lemma fget_fset_other : forall (f : forest) k k' v, k <> k' -> fget A (fset A f k' v) k = fget A f k.
 Proof.
   induction f as [|k0 t r IH]; intros k k' v H; cbn [fset fget].
